@@ -14,6 +14,14 @@ CHECKS = {
    technique="bounded-exhaustive enumeration of archive entry sequences x 3 formats through the real extract functions in a canary sandbox",
    text="Every sequence of <=2 (thorough <=3) entries from a 20-entry pool covering every escape shape (.. at several depths, sibling-prefix names, absolute, symlink-then-file) and every well-formedness wrinkle (missing parent entries, duplicates, clashes) is packed as tar.gz, zip and tar.xz and extracted by the real code; nothing outside the destination may change, escaping entries must give an error, well-formed archives must be re-created byte for byte.",
    note="Concurrent-request part (flock/rename protocol under the scheduler) is not built yet; GNU tar 1.34 is the tar.xz back end.", ref="§4 C20"),
+ "C10": dict(cat="model_checking", engine="sched",
+   technique="stateless model checking of the real z_chan.go under a controlled scheduler: all interleavings within preemption/spurious-wake bounds, outcomes checked against a reference Go-channel LTS",
+   text="The channel source is taken from the working tree at check time and run on stand-ins for pthread mutex/cond whose every operation is a scheduling point. For every scenario of the families (1-2 channels of capacity 0-2, 2-3 threads, <=3 operations each incl. try-ops and 2-case selects) every interleaving with <=2 (thorough 3) preemptions, every Signal waiter choice and <=1 spurious wake-up is executed; each terminal outcome (per-thread observations and who is still blocked) must be an outcome of an exhaustively enumerated reference LTS of Go's channel semantics, and the ring-buffer invariants must hold at every scheduling point. Exactly-once/FIFO delivery, capacity, close wake-ups, select commitment and absence of lost wake-ups are all consequences of outcome-set inclusion.",
+   note="Sequentially consistent memory; pthread semantics as modelled (Signal wakes any waiter, bounded spurious wake-ups); scenarios bounded as listed; select/try-op deviations that are genuine defects of llgo's select are listed per (scenario => outcome) in known/C10_*.txt.", ref="§4 C10"),
+ "C11": dict(cat="model_checking", engine="sched",
+   technique="stateless model checking of the real sema_llgo.go (semaphores, notify list) under a controlled scheduler against reference semaphore/ticket specifications",
+   text="semaAcquire/semaRelease and the notify-list functions are run from the working-tree source with every mutex, condition variable and atomic operation a scheduling point: all programs of <=3 Acquire/Release operations on 1-2 semaphores for 2-3 threads, and all waiter/notifier mixes for 2-3 threads, under every interleaving within the bounds. A terminal state must be reachable in the reference specification, which rules out lost wake-ups (a thread asleep while the count is positive or its ticket is covered), over-admission and waits that return without a notification.",
+   note="sync.Mutex/RWMutex/WaitGroup/Once/Cond are Go's own code on top of these primitives (not re-explored); hardware memory ordering of atomics, the go statement and atomic.Value are not covered yet.", ref="§4 C11"),
 }
 ALL = ["C%02d" % i for i in range(1, 21)]
 m = {
